@@ -92,6 +92,30 @@ R6 = {
  "C20": "the waiting route is appended before anything that can leave _probe_addr; no guard of the message parser refuses a prefix length in 0..32",
 }
 
+# clauses added in round 7 (DESIGN.md §16)
+R7 = {
+ "C01": "helper goroutines started only when their socket could be opened; nil results of repo functions tested before use; balanced locking",
+ "C02": "no mutex re-acquired while held; the release response is sent before the shutdown; only a response-type message reaches the waiter of an own request",
+ "C03": "module command kinds; the release helpers do not edit the session; the session QER is moved, not swapped",
+ "C04": "complete session copies; a delete names its rules; ID pools filled from 1",
+ "C05": "no self-deadlock; gauge unit counted before an abort; a delete names its rules; releases read only",
+ "C06": "no self-deadlock on the pool lock; CreatePDR only appends; every parsePDR gets the pool",
+ "C07": "a session record is removed only on an accepted delete; establishment replies are built by the paired constructor per request",
+ "C08": "one completion per worker; ID 0 not pooled; users compared with 0",
+ "C09": "removed rules handed on as copies; the session QER is moved, not swapped",
+ "C10": "no self-deadlock; a worker reports on every non-failing path; nil results tested before use",
+ "C11": "fresh serialize buffer per End Marker; no lock held across a loop iteration; workers always report",
+ "C12": "the two timers are used exactly as parsed",
+ "C13": "the UE-address mapping survives a failed delete; the store is written after the datapath write; nothing is written into the parsed rule after its copy was stored; no lock held across an iteration of the DDN listener",
+ "C14": "every datapath error is a rejection; the UP4 sender reads the current P4Runtime client per packet",
+ "C15": "SEID entropy; DeallocIP once; every tunnelled FAR registers with its peer",
+ "C16": "slice meter index; map keys sorted by a total order",
+ "C17": "translator byte encoding; the expansion is only read and every rule of it is processed",
+ "C18": "zap Log*(level) with a non-constant level is an exit obligation; every configured peer is parsed",
+ "C19": "no self-deadlock in the slice handler; crash obligations over the REST handler's call tree",
+ "C20": "caches created once; bootstrap dump not narrower than the handler; BESS asked before the bookkeeping",
+}
+
 def main():
     built = set(subprocess.run([os.path.join(ROOT, "bin/upfcheck"), "-list"], capture_output=True, text=True).stdout.split())
     py_built = set()
@@ -102,6 +126,8 @@ def main():
         decided, notdec, tech, ref = P[pid]
         if pid in R6:
             decided += "; " + R6[pid]
+        if pid in R7:
+            decided += "; " + R7[pid]
         if pid in built or pid in py_built:
             cmd = f"./bin/upfcheck -prop {pid}"
             if pid in py_built and pid not in built:
